@@ -218,6 +218,59 @@ func c06Testing(r *Run, recs []EncRec) {
 	}
 }
 
+// c06DebugEnv: the same records in a PRODUCTION process (this binary, not a go test binary) started with DEBUG=1 in
+// its environment.  That variable selects the start level of the package; the error dump belongs to go test runs and
+// debuggers (statement of C06), so every record is byte for byte what this process - started without it - writes.
+func c06DebugEnv(r *Run, id string, recs []EncRec) {
+	if len(recs) == 0 {
+		return
+	}
+	exe, err := os.Executable()
+	must(err)
+	for i := range recs {
+		recs[i].Cfg.Caller = false
+	}
+	var buf bytes.Buffer
+	must(gob.NewEncoder(&buf).Encode(c06TIn{recs}))
+	cmd := exec.Command(exe, "C06-testing")
+	cmd.Env = append(os.Environ(), "DEBUG=1")
+	cmd.Stdin = strings.NewReader(base64.StdEncoding.EncodeToString(buf.Bytes()))
+	var so, se bytes.Buffer
+	cmd.Stdout, cmd.Stderr = &so, &se
+	t := time.AfterFunc(120*time.Second, func() { _ = cmd.Process.Kill() })
+	err = cmd.Run()
+	t.Stop()
+	var out c06TOut
+	if err != nil || json.Unmarshal(so.Bytes(), &out) != nil || len(out.Payloads) != len(recs) {
+		r.Fail(id+"/debug-env/crash", fmt.Sprintf("a production process started with DEBUG=1 died while formatting %d records: %v: %s", len(recs), err, c08clip(se.String(), 400)), map[string]any{"kind": "debug-env"})
+		return
+	}
+	for i, rec := range recs {
+		prod := rec.emit()
+		r.Count(true, fmt.Sprintf("debug-env %+v", rec))
+		r.Dist["debug-env:"+rec.Cfg.Mode]++
+		var got [][]byte
+		for _, s := range out.Payloads[i] {
+			b, _ := base64.StdEncoding.DecodeString(s)
+			got = append(got, b)
+		}
+		same := len(got) == len(prod)
+		for j := 0; same && j < len(got); j++ {
+			same = bytes.Equal(got[j], prod[j])
+		}
+		if !same {
+			c := c06TCase{Rec: rec, Why: "a production process started with DEBUG=1 in its environment writes another record than one started without it"}
+			if len(prod) > 0 {
+				c.Production = strconv.Quote(string(prod[0]))
+			}
+			if len(got) > 0 {
+				c.Testing = strconv.Quote(string(got[0]))
+			}
+			r.Fail(id+"/debug-env/record-differs", c.Why, c)
+		}
+	}
+}
+
 func ctlProfileNoLF(b []byte) string {
 	return ctlProfile(bytes.ReplaceAll(b, []byte("\n"), nil))
 }
